@@ -391,8 +391,7 @@ Proof.
   destruct md.
   - destruct (is_named r); [left; reflexivity|].
     destruct (can_equal t); [right; left; split; reflexivity| left; reflexivity].
-  - destruct (can_equal t); [right; left; split; reflexivity|].
-    destruct (is_named r); [left; reflexivity| right; right; reflexivity].
+  - destruct (can_equal t); [right; left; split; reflexivity|]. left; reflexivity.
 Qed.
 
 Lemma agrees_unsup s b : s = Some b -> agrees Unsup s.
